@@ -87,6 +87,10 @@ def generate(cfg, repo=None, log=None):
     out = facts_dir(cfg, repo)
     marker = os.path.join(out, "COMPLETE")
     if os.path.exists(marker):
+        try:
+            os.utime(out)
+        except OSError:
+            pass
         return out
     import fcntl
     os.makedirs(CACHE, exist_ok=True)
@@ -155,7 +159,7 @@ def _generate_locked(cfg, repo, out, log):
     return out
 
 
-def prune_cache(keep=40):
+def prune_cache(keep=150):
     base = os.path.join(CACHE, "facts")
     if not os.path.isdir(base):
         return
